@@ -15,13 +15,13 @@ HOOK_COMMITS = subprocess.run(
 
 P = {
  "C01": dict(engine="DOC", technique="runtime monitor: independent XML reference reader vs loaded model + load/serialize fixed-point oracle on generated documents",
-   text="Every generated document (whole-specification documents for all 21 versions, per-type micro documents with value classes, random trees with syntactic variation, lenient documents with injected defects) is read by an independent reference XML reader and compared with the loaded model; load-serialize-load-serialize must reach a fixed point. Held on the executions listed in the evidence. Thorough repeats the quick workload in an AddressSanitizer build.",
+   text="Every generated document (whole-specification documents for all 21 versions, per-type micro documents with value classes, random trees with syntactic variation, lenient documents with injected defects) is read by an independent reference XML reader and compared with the loaded model; load-serialize-load-serialize must reach a fixed point. Held on the executions listed in the evidence. Thorough repeats the quick workload in an AddressSanitizer build. A share of the documents additionally goes through the file based pair: write() must put exactly the serialized text on disk and load_file() of that file must give the same model.",
    note="trusted: the specification tables (subject of C18/C19) for typing the reference tree; the harness's own XML reader/writer; comment/whitespace semantics as documented by the crate", ref="5/C01"),
  "C02": dict(engine="DOC", technique="runtime monitor: crash/panic/abort observer over hostile byte strings in child processes, error-line range oracle, check_buffer⊇load oracle; thorough adds the C02 oracle on short inputs under Miri and an AddressSanitizer rebuild repeating the quick workload",
-   text="Exhaustive short strings over an XML token alphabet, structure-aware mutations of valid documents for all versions, random bytes and pathological nesting are pushed through load_buffer (strict, lenient) and check_buffer with a panic hook and process-exit monitor; every error/warning line is range-checked.",
+   text="Exhaustive short strings over an XML token alphabet, structure-aware mutations of valid documents for all versions, random bytes and pathological nesting are pushed through load_buffer (strict, lenient) and check_buffer with a panic hook and process-exit monitor; every error/warning line is range-checked. A share of the inputs (all accepted ones, one in sixteen of the others) is also written to a scratch file: load_file must behave exactly like load_buffer on the file's bytes and check_file must accept every loadable file whose header lies within the 4096 bytes it reads.",
    note="stuck inputs are judged by a logical progress criterion, never by wall clock alone; deep nesting runs in child processes", ref="5/C02"),
  "C03": dict(engine="HIST", technique="runtime invariant monitor (tree shape, iterators agree, stale handles fail) after every call of generated API histories",
-   text="After every call of seeded random histories (30-60 calls plus growth steps, 1-3 models, 1-4 files, incl. unsorted/partial/failing merges) the full tree-shape monitor walks the model and compares parent/position/model/iterators; stale handles are probed with every place-dependent request and must fail without changing the live model. Thorough adds a small API tour with the same monitors under Miri.",
+   text="After every call of seeded random histories (30-60 calls plus growth steps, 1-3 models, 1-4 files, incl. unsorted/partial/failing merges) the full tree-shape monitor walks the model and compares parent/position/model/iterators; stale handles are probed with every place-dependent request and must fail without changing the live model. Thorough adds a small API tour with the same monitors under Miri. The depth-first iterator is also driven with next_sibling() after selected elements (with and without depth limit) and compared with the pre-order listing with the skipped subtrees removed.",
    note="histories are generated, not exhaustive beyond the stated bound; trusted: harness bookkeeping of live/stale handles by its own tree walk", ref="5/C03"),
  "C04": dict(engine="HIST", technique="runtime invariant monitor: path index ≡ tree-derived path map after every call",
    text="After every call and load, the path index observed through get_element_by_path/identifiable_elements/path is compared with a map derived independently from the tree (item names of identifiable ancestors), including negative probes of near-miss keys. Thorough repeats the quick workload in an AddressSanitizer build.",
@@ -33,10 +33,10 @@ P = {
    text="Before each rename/move the harness resolves every reference to its target object with its own index; afterwards references that designated the renamed/moved element or its descendants must designate the same objects, all others keep their text.",
    note="resolution by harness-side index, not by the crate's cache", ref="5/C06"),
  "C07": dict(engine="HIST", technique="runtime monitor: independent pairwise order model vs calc_element_insert_range/create_*_at/list_valid_sub_elements; serialize→lenient-load validator agreement",
-   text="On API-built models over all element types and versions the insertion range, create-at success and allowed-list are compared with a pairwise reference order model; after every successful call every value must lie in its value space (length limit, pattern, enum item valid in the version, kind) and every identifiable element must have its SHORT-NAME; serialized output is re-validated by the lenient loader and compared with the original content.",
+   text="On API-built models over all element types and versions the insertion range, create-at success and allowed-list are compared with a pairwise reference order model; after every successful call every value must lie in its value space (length limit, pattern, enum item valid in the version, kind) and every identifiable element must have its SHORT-NAME; serialized output is re-validated by the lenient loader and compared with the original content. Quick visits every element type twice; types with unusual naming rules (identifiable with mixed content, identifiable in some versions only) get extra cases and a directed sequence of calls against their SHORT-NAME; a directed sweep copies every enumeration-typed element whose value exists in some versions only into a model of a version that lacks it.",
    note="order model uses find_common_group/multiplicity tables of the specification crate (trusted, subject of C18)", ref="5/C07"),
  "C08": dict(engine="DOC", technique="runtime differential monitor strict vs lenient; single-defect injection with table-derived expectation",
-   text="Every input of the DOC corpora is loaded in both modes and the outcomes are compared (Ok⇔Ok+no warnings, first warning = strict error, same model); documents with exactly one injected, table-derived constraint violation must be rejected by strict loading. Thorough repeats the quick workload in an AddressSanitizer build.",
+   text="Every input of the DOC corpora is loaded in both modes and the outcomes are compared (Ok⇔Ok+no warnings, first warning = strict error, same model); documents with exactly one injected, table-derived constraint violation must be rejected by strict loading. Thorough repeats the quick workload in an AddressSanitizer build. For every one of the 28 patterns of the specification, at element and attribute sites whose minimal document is accepted strictly with a member of the pattern, every non-member derived from the pattern's minimal automaton (all short words over one printable representative per byte class, every access string extended by one and two symbols) must be rejected by strict loading.",
    note="only injections whose illegality is computed from the specification tables are judged", ref="5/C08"),
  "C09": dict(engine="DOC", technique="runtime monitor: split-a-master generator, all load orders, union/attribution/projection oracles",
    text="Random master models are split at splittable points into 2-4 files with shuffled sibling order; every load order must give the master's content, order-independent merged content, per-file projections, and Element::file_membership() of every identifiable element must name exactly the files whose text contains it. Thorough repeats the quick workload in an AddressSanitizer build.",
